@@ -614,13 +614,14 @@ def initial_ref(D, init):
     return ref
 
 
-def initial_states(D, tier_profiles=None, shapes=None):
+def initial_states(D, tier_profiles=None, shapes=None, gmode="all"):
+    """gmode 'all': every subset of groupable axes grouped (none / each / all); 'ends': none and all only."""
     out = []
     for pname, present, dup in profiles(D):
         if tier_profiles is not None and pname not in tier_profiles:
             continue
         gk = [k for k in D.gkinds if present.get(R.GROUP_FIELD[k], False)]
-        gsets = [[]] + [[k] for k in gk] + ([gk] if len(gk) > 1 else [])
+        gsets = [[]] + ([[k] for k in gk] if gmode == "all" or len(gk) == 1 else []) + ([gk] if len(gk) > 1 else [])
         for shape in itertools.product(*[sizes_for(D, k) for k in D.kinds]):
             if shapes is not None and tuple(shape) not in shapes:
                 continue
@@ -923,10 +924,11 @@ def plan(tier):
 
     quick     deep: depth 2 from the 'full' profile, shape 2 x 2 (x 2), every grouped/ungrouped combination
               wide: depth 1 from every shape {1,2,3}^axes of the profiles QUICK_PROFILES
-    thorough  deep: depth 3 from 'full' and 'dup' (three-axis classes: 'full'), shape 2^axes (one-axis classes also
-                    1 and 3), every grouping combination; the three base classes: depth 4 from shapes 1 and 2
-              wide: depth 2 from every shape of 'full', 'dup', 'bare' and from shape 2^axes of every
-                    'one optional array absent' profile; depth 1 from every other shape of those profiles
+    thorough  deep: depth 3 from 'full', shape 2^axes, every grouping combination (three-axis classes: ungrouped and
+                    all-grouped); one-axis classes also 'dup' and shapes 1 and 3; the three base classes depth 4
+                    from 'full' shapes 1 and 2
+              wide: depth 2 from every shape of 'full', 'dup', 'bare' and from shape 2^axes of every 'one optional
+                    array absent' profile (ungrouped and all-grouped); depth 1 from every initial state
     """
     out = []
     T = tier == "thorough"
@@ -954,17 +956,18 @@ def plan(tier):
 
         if T:
             if name in BASE3:
-                emit(initial_states(D, ["full", "dup"], {_s(D, 1), _s(D, 2)}), 4, nparts=2)
-                emit(initial_states(D, ["full", "dup"], {_s(D, 3)}), 3, nparts=2)
+                emit(initial_states(D, ["full"], {_s(D, 1), _s(D, 2)}), 4, nparts=2)
+                emit(initial_states(D, ["dup"], {_s(D, 1), _s(D, 2)}), 3)
+                emit(initial_states(D, ["full"], {_s(D, 3)}), 3, nparts=2)
             elif nl == 1:
                 emit(initial_states(D, ["full", "dup"], {_s(D, 1), _s(D, 2), _s(D, 3)}), 3, nparts=2)
             elif nl == 2:
-                emit(initial_states(D, ["full", "dup"], {_s(D, 2)}), 3, nparts=4)
+                emit(initial_states(D, ["full"], {_s(D, 2)}), 3, nparts=4)
             else:
-                emit(initial_states(D, ["full"], {_s(D, 2)}), 3, nparts=10)
-            emit(initial_states(D, ["full", "dup", "bare"]), 2, chunk={1: 6, 2: 2, 3: 1}[nl])
-            emit(initial_states(D, nox, {_s(D, 2)}), 2, chunk={1: 6, 2: 2, 3: 1}[nl])
-            emit(initial_states(D, nox), 1, chunk={1: 40, 2: 24, 3: 12}[nl])
+                emit(initial_states(D, ["full"], {_s(D, 2)}, gmode="ends"), 3, nparts=10)
+            emit(initial_states(D, ["full", "dup", "bare"], gmode="ends"), 2, chunk={1: 6, 2: 2, 3: 1}[nl])
+            emit(initial_states(D, nox, {_s(D, 2)}, gmode="ends"), 2, chunk={1: 6, 2: 2, 3: 1}[nl])
+            emit(initial_states(D, allp), 1, chunk={1: 40, 2: 24, 3: 12}[nl])
         else:
             emit(initial_states(D, ["full"], {_s(D, 2)}), 2, nparts={1: 1, 2: 3, 3: 4}[nl])
             emit(initial_states(D, [p for p in allp if p in QUICK_PROFILES]), 1, chunk={1: 40, 2: 16, 3: 10}[nl])
